@@ -83,6 +83,7 @@ PROPS['C14'] = {
         'TRUE-IMPLIES-EQ: contains() evaluates to true only when the element at lower_bound(encode(p)) compared equal to the query (no false positive)',
         'KIND: the compared position is FIRST_GE(encode(p)) within [search(encode(p)).lo, .hi)',
         'END-GUARD: the element is not dereferenced on the branch on which the position equals data.end()',
+        'FALSE-IMPLIES-ABSENT: every way of yielding false implies absence: the lower-bound position is end(), its element differs from p, or p fails a coordinate-width predicate whose threshold is not below the constructor\'s',
     ],
     'not_decided': 'the "present => true" half rests on the inner index bracketing the lower bound (C02, numeric); not claimed here',
     'explanation': 'Clause-level static claim for C14 (the no-false-positive half and memory safety of the comparison), decided on the short-circuit CFG of contains() '
@@ -179,6 +180,7 @@ PROPS['C08'] = {
         'KIND: the segment index handed to the model derives from a LAST_LE position in all three arms (one-level, forward scan, binary search); binary searches use the clamped key; a discarded routing result is a violation',
         'SENTINEL: every CompressedLevel key array ends with the sentinel on all construction paths; SUPPORT-ORDER: sel1 is bound to the final compressed_intercepts',
         'CONV-RANGE / INT-INTERCEPT: in every segment evaluator the floating estimate is bounded above by a constant before it is converted to an integer, and the integer intercept is added after the conversion, in integer arithmetic (never converted to Floating, whose mantissa is 24 bits by default)',
+        'SENTINEL-EXCLUDED: a trailing segment that starts at the sentinel is not fed to the next level (sibling agreement with PGMIndex::build); INTERCEPT-BASE / INTERCEPT-FAITHFUL: the stored intercepts are the computed ones, lowered at most to prev_level_size - 1, the base included, never raised to a data-dependent bound; PRECISION relative-abscissa: every user of the intersection point asks for it relative to an origin',
     ],
     'not_decided': 'that slope merging and intercept clamping keep every segment within Epsilon (numeric)',
     'explanation': 'Clause-level static claim for C08: the PGMIndex clauses re-established on the compressed layout.',
@@ -189,6 +191,7 @@ PROPS['C09'] = {
         'RANGE-FORM incl. the two early exits ({0,0,0} only under key<first_key, {n,n,n} only under key>last_key), CLAMP (every other use of the key is behind both exits), CAP, AGREE-EPS, KIND (LAST_LE inside the bucket slice)',
         'BUCKET-AGREE: bucket of a key computed with the same shift constant (power-of-two sizes) or the same field step (other sizes) at build and query time, on key-first_key; slice is [top_level[j], top_level[j+1])',
         'CONV-RANGE / INT-INTERCEPT: in every segment evaluator the floating estimate is bounded above by a constant before it is converted to an integer, and the integer intercept is added after the conversion, in integer arithmetic (never converted to Floating, whose mantissa is 24 bits by default)',
+        'TABLE-WIDTH: every value stored in a cell of the bit-compressed top-level table (segment indices up to and including segments.size()) fits the cell width BIT_WIDTH(M) (interval dataflow)',
     ],
     'not_decided': 'table bounds and the overflow guard arithmetic of build_top_level (numeric)',
     'explanation': 'Clause-level static claim for C09.',
@@ -200,6 +203,7 @@ PROPS['C10'] = {
         'REBASE-AGREE: the constructor stores key-first_key for every segment except the sentinel, built after the rebase loop; search queries pred(k-first_key) and evaluates the model at origin+first_key',
         'SELECT-RANGE: in pred(), the value whose high part feeds ef.high_0_select is bounded by size()-1 on every path (interval dataflow over the guard and the increment), so the rank never exceeds the number of buckets; the beyond-universe branch selects the last stored element',
         'CONV-RANGE / INT-INTERCEPT: in every segment evaluator the floating estimate is bounded above by a constant before it is converted to an integer, and the integer intercept is added after the conversion, in integer arithmetic (never converted to Floating, whose mantissa is 24 bits by default)',
+        'EF-LAST: beyond the universe pred() returns the last coded element by the Elias-Fano access formula; SENTINEL-EXCLUDED: the range of segment keys handed to sd_vector is delimited under a comparison with the sentinel',
     ],
     'not_decided': 'correctness of the rest of pred() over the high/low bit arrays (bit-level arithmetic on runtime values)',
     'explanation': 'Clause-level static claim for C10.',
@@ -245,6 +249,7 @@ PROPS['C12'] = {
         'CTOR-AGREE: the three MappedPGMIndex constructors (range, raw file, reopen) all establish n, first_key, segments, levels_offsets, data, file_bytes, header_bytes (through member initialisers, the base constructor, assignments, by-reference out-parameters and the member functions they call)',
         'SER-AGREE: the loader reads exactly the (helper kind, field) list the serialiser wrote, in order; every header write is added to header_bytes; header_bytes is patched at offset 0 after the keys; the keys are written one per element through the iterator; both sides compute file_bytes = header_bytes + n*sizeof(K) and map exactly that; begin() is data + header_bytes',
         'READONLY-REOPEN: the reopen constructor opens the stream with ios::in only (constant-evaluated openmode), and nothing in its call closure writes a stream or opens/maps the file writable (open flags O_RDONLY, mmap PROT_READ)',
+        'SER-AGREE key-width: every key is written with sizeof(K) bytes whatever the value type of the range (driver instantiation with a different value type)',
     ],
     'not_decided': 'byte identity of the key area and of the segment contents between the two creating constructors (value-level); that answers are identical rests on C01/C02',
     'explanation': 'Clause-level static claim for C12: constructor, serialiser and loader agree structurally; a constructor that omits a field or a loader that disagrees with the writer breaks reopen equivalence.',
@@ -329,6 +334,7 @@ PROPS['C03'] = {
         'RANK-AGREE: every add has one of three shapes: (in(e), e); gap point (succ(in(i)), i) guarded by succ(in(i)) < in(i+1) (GAP-GUARD, decided by normal form); closing point (succ(in(n-1)), n) - succ is +1 or nextafter(., +inf)',
         'OMP-ORDER: inside the parallel region only chunk-private state, the reduction variable and results[i] are written; the caller\'s callback is neither used nor captured inside; it is invoked after the region in chunk order; the last chunk ends at n (proved by normal form, refuted by a concrete witness)',
         'PRECISION: the intersection point, slope range and floating-point segment are computed in long double throughout (no narrower cast or arithmetic); KEY-ARITH: no difference/sum of two keys is evaluated in a signed type of the key\'s width; GEOM-GUARDS: the two cut tests and the two hull-tightening tests of add_point are the strict comparisons of the algorithm',
+        'INDEX-COVER: every rank of a chunk [start, end) is fed to the builder or duplicates its predecessor, for every chunk length (abstract model of the chunk bounds); SLOPE-ORDER / GEOM-GUARDS in the form the epsilon bound needs (a point outside the rectangle is never accepted; the tighten conditions are exact)',
     ],
     'not_decided': 'the epsilon bound itself: |line(x) - y| <= epsilon + rounding needs the exact geometry of the hull update and of get_floating_point_segment; no static argument in reach',
     'explanation': 'Clause-level static claim for C03: no point is dropped, ranks are the keys\' indices, points and segments come out in order; the numeric bound is not claimed.',
@@ -339,6 +345,7 @@ PROPS['C04'] = {
         'CUT-SITES: a segment is closed only under the false outcome of add_point or at the final flush; the driver never resets the builder',
         'REJECT-ONLY-GEOMETRIC: `return false` of add_point depends only on the two cut comparisons (never on a counter, size or index)',
         'GEOM-GUARDS: the cut tests are the strict comparisons p1-r[2] < r[2]-r[0] and p2-r[3] > r[3]-r[1] (a non-strict test cuts segments that could be extended), the tightening tests are strict likewise',
+        'SLOPE-ORDER: Slope::operator< / > / == / != are exactly their own relation on the cross products, so the strict tests of add_point are strict',
     ],
     'not_decided': 'that outside_line1/2 are exactly infeasibility (needs the convex-hull invariant), the segment-count bounds: value-level',
     'explanation': 'Clause-level static claim for C04: any additional cut, or a rejection that depends on something other than the geometric test, yields a non-maximal segment for some input while every test still passes.',
@@ -353,6 +360,7 @@ PROPS['C17'] = {
         'SENTINEL: every level built by build() and every CompressedLevel key array ends with the sentinel on all construction paths, and no data key equals the sentinel (checks G1/G2 dominate the segmentation)',
         'CLAMP / CAP / N-CAP / KIND: the query key is clamped (no negative segment index), the position estimate is capped by the next intercept, hi is capped by n, the compressed segment index derives from a LAST_LE position',
         'SELECT-RANGE: EliasFanoPGMIndex::pred() hands ef.high_0_select a rank within the number of buckets on every path (the beyond-universe guard covers the incremented value)',
+        'BACK-GUARD: front()/back() of a member container in a query only under an emptiness test or a recorded constructor invariant; SENTINEL-EXCLUDED (Elias-Fano constructor)',
     ],
     'not_decided': 'memory safety of the unchecked scans as a whole: it rests on numeric invariants (predictions within the window, intercepts <= n, top_level[j+1], ef.low[...] and loser-tree indices) that no static argument in reach bounds',
     'explanation': 'Clause-level static claim for C17: the structural part of memory safety (end-guards, sentinels, clamps and caps); out-of-bounds accesses that depend on numeric invariants are not claimed.',
@@ -373,9 +381,9 @@ PROPS['C11'] = {
     'level': 'other', 'rules': p_mapped.rules_c11,
     'decides': [
         'KIND: lower_bound(key) is FIRST_GE(key) and contains(key) is std::binary_search, both over exactly [begin() + search(key).lo, begin() + search(key).hi) for the same key',
-        'KIND (upper_bound): starts from FIRST_GT(key) inside the PGM range, gallops while `it + step < end()` (tested first) and the probed element equals key, finishes with FIRST_GT(key) in [it + step/2, min(it + step, end()))',
-        'count(key): 0 exactly under `lower_bound(key) == end() || *lb != key` (end tested first), otherwise distance(lower_bound(key), upper_bound(key))',
-        'DERIVED: size() is n, end() is begin() + size(); the four queries read the key area only through begin()/end()',
+        'KIND (upper_bound, gallop-window validity): the gallop starts from FIRST_GT(key) or FIRST_GE(key) inside the PGM range; step starts at 1 and only doubles; the loop continues only while `it + step < end()` (evaluated before the probe) and the probed element is == / <= key; the result is FIRST_GT(key) over [it + step/2, min(it + step, end())) or a valid slower window',
+        'count(key): every non-constant return is distance(lower_bound(key), upper_bound(key)) in that order; a constant 0 is returned only where the path condition implies absence (lb == end() or *lb != key); the guard itself is optional',
+        'DERIVED: size() is n, end() is begin() + size(), begin() is the mapping base plus header_bytes bytes (one-byte pointee)',
     ],
     'not_decided': 'that the four results equal those of the std algorithms on every sequence: this rests on the numeric epsilon guarantee (C01/C02) for the stored keys and on the arithmetic of the gallop; value-level',
     'explanation': 'Clause-level static claim for C11. (The first version of the design listed C11 as not applicable; the clauses above are structural necessary conditions of the same kind as those claimed for C02/C13 and are decided by the same engines.)',
